@@ -537,7 +537,12 @@ def _run_snapshot(case):
                 if done[t] < len(ops):
                     for _o, st2, _v, _c in M.apply(spec, st, L.model_op(ops[done[t]])):
                         frontier.append((done[:t] + (done[t] + 1,) + done[t + 1:], st2))
-        if got.get('items') not in allowed:
+        if got.get('items') not in allowed and case['how'] == 'values' and got.get('items') == {}:
+            # LRI(values=shared) first asks `if values:` -- len() of the shared cache, one of the lock-free inherited
+            # readers of C03-F1 -- and copies nothing when a 1-slot cache is caught between eviction and insertion
+            out.known.append('C03-F1')
+            out.probe('lockfree_read_saw_transient_state')
+        elif got.get('items') not in allowed:
             out.fail('torn-snapshot', 0, '%s of a shared %s(max_size=%d) gave %r while %r ran: the cache never held exactly that '
                      'between two operations (states: %r)' % (case['how'], case['cls'], case['max_size'], got.get('items'),
                                                                writers, allowed[:8]), mode='snapshot')
